@@ -256,7 +256,7 @@ def replay(w):
         if kind == 'prefix':
             f = {'sift': lambda **k: S.sift(x, **k), 'mask_sift': lambda **k: S.mask_sift(x, **k)}[w['variant']]
             try:
-                full = f(max_imfs=w.get('big', 30)) if w['variant'] == 'sift' else f(max_imfs=9)
+                full = f() if w['variant'] == 'sift' else f(max_imfs=9)       # the UNCAPPED run (mask_sift: its default cap of 9 mask frequencies)
                 cap = w['cap']
                 part = f(max_imfs=cap)
             except emd.support.EMDSiftCovergeError:
